@@ -1,22 +1,24 @@
-"""E6 coordinator side: node processes, frames, timeouts, restart, and the per-process node pool.
+"""E6 coordinator side: node processes, frames, timeouts, restart, zygotes and the per-process node pool.
 
-A *node* is a fresh interpreter (`/venv/bin/python engines/node_main.py`) started with a PYTHONHASHSEED
-chosen by the coordinator, importing Cirq from VERIF_REPO.  Frames are 4-byte big-endian length + pickle.
-The payloads under test travel as bytes inside the frames; only bytes the coordinator holds survive a
-restart.
+A *node* is an interpreter process with a PYTHONHASHSEED chosen by the coordinator that has imported the
+five Cirq packages from VERIF_REPO and serves request frames (4-byte big-endian length + pickle).  The
+payloads under test travel as bytes inside the frames; only bytes the coordinator holds survive a restart.
 
-Pool.  Starting a node costs 3-5 s (cold import of five packages), a run costs tens of milliseconds, so
-each process that executes runs (every forked worker of the runner, and the parent when it writes a replay
-file) keeps the nodes it has started alive between runs, *indexed by hash seed*.  A run asks for "a node
-with PYTHONHASHSEED = s" where s comes from its tape; it gets an idle one (after a `reset` op that drops
-every held value and collects garbage) or a newly started one.  Which process serves a logical node is
-therefore invisible to the run; its hash seed -- the thing the property is sensitive to -- is a function of
-the tape.  A *restart* kills the process for real and hands the run a node with another seed; a replacement
-for the killed seed is started in the background for later runs.
+How nodes come to be.  A cold start of `/venv/bin/python engines/node_main.py` costs 3-5 s of import
+(10+ s when sixteen of them start at once), a run costs ~0.1 s.  So `start_zygotes()` -- called once by
+the check's setup(), i.e. in the parent before the runner forks its workers -- starts ONE such interpreter
+per hash seed in *zygote* mode: it imports everything, then answers every connection to its unix socket
+with fork().  The child is a node: same hash seed, same freshly imported state, nothing else.  All workers
+of the batch connect to the same six zygotes.  Node start = connect + fork (~20 ms), so by default every run
+gets nodes nobody has used before and a run is a pure function of its tape by construction; a *restart* is
+kill -9 + a new fork from the zygote of another hash seed.
 
-Anything a node reports that could depend on what earlier runs did in that interpreter (interned qubit
-instances with cached hashes, resolver caches, functools caches) is kept out of the event log by
-construction: nodes report verdicts (booleans) and type names only.
+Pool.  Each process that executes runs keeps a `Pool`.  With VERIF_NODE_REUSE=N (default 0) a released
+node is kept for up to N further runs and handed out again after a `reset` op (drop every held value,
+gc.collect()).  Reuse is what makes the fallback mode VERIF_NODE_MODE=spawn (no zygotes, one cold interpreter
+per node) affordable; there, nodes are indexed by hash seed and a restart takes another seed's node.
+In either mode nodes report verdicts (booleans) and type names only, so nothing that earlier runs left in an
+interpreter (resolver caches, functools caches, interned qubits) can reach the event log.
 
 Failure classes.  status "sut" = an exception inside a call into the code under test that the property
 says must succeed (returned to the check, which raises the violation); status "error", a timeout, or a dead
@@ -30,7 +32,9 @@ import atexit
 import os
 import pickle
 import select
+import shutil
 import signal
+import socket
 import struct
 import subprocess
 import sys
@@ -45,11 +49,11 @@ NODE_MAIN = os.path.join(os.path.dirname(os.path.abspath(__file__)), "node_main.
 PYTHON = sys.executable
 
 # the hash seeds a tape can choose from (index 0 and 1 are the shrink targets)
-HASH_SEEDS = (0, 1, 4242, 31337)
+HASH_SEEDS = (0, 1, 4242, 31337, 2718281, 99)
 
-START_TIMEOUT = float(os.environ.get("VERIF_NODE_START_TIMEOUT", "240"))
+START_TIMEOUT = float(os.environ.get("VERIF_NODE_START_TIMEOUT", "300"))
 CALL_TIMEOUT = float(os.environ.get("VERIF_NODE_CALL_TIMEOUT", "90"))
-MAX_LIVE = 5
+MAX_IDLE = 6
 
 
 class NodeDied(HarnessError):
@@ -59,33 +63,162 @@ class NodeDied(HarnessError):
         self.sut_traceback = sut_traceback
 
 
+def _node_env(hashseed: int) -> Dict[str, str]:
+    env = {k: v for k, v in os.environ.items() if k != "VERIF_DIGESTS"}
+    env["PYTHONHASHSEED"] = str(hashseed)
+    env["VERIF_REPO"] = repoenv.repo_root()
+    env.pop("PYTHONPATH", None)
+    # nodes do small-matrix work only; no BLAS thread pools (also: the zygote forks, keep it single-threaded)
+    for k in ("OPENBLAS_NUM_THREADS", "OMP_NUM_THREADS", "MKL_NUM_THREADS"):
+        env[k] = "1"
+    return env
+
+
+# -----------------------------------------------------------------------------------------------------
+# zygotes: one pre-imported interpreter per hash seed, forked on demand
+# -----------------------------------------------------------------------------------------------------
+class Zygotes:
+    def __init__(self):
+        self.owner = os.getpid()
+        self.dir = tempfile.mkdtemp(prefix="verif-zygotes-", dir=os.environ.get("TMPDIR") or "/dev/shm")
+        self.procs: Dict[int, subprocess.Popen] = {}
+        self.t_started = time.monotonic()
+        for s in HASH_SEEDS:
+            log = open(self.log_path(s), "wb")
+            self.procs[s] = subprocess.Popen(
+                [PYTHON, "-X", "faulthandler", NODE_MAIN, "--zygote", self.socket_path(s)],
+                stdin=subprocess.DEVNULL, stdout=log, stderr=log, env=_node_env(s), close_fds=True,
+                cwd=os.path.dirname(NODE_MAIN))
+            log.close()
+
+    def socket_path(self, seed: int) -> str:
+        return os.path.join(self.dir, f"zygote-{seed}.sock")
+
+    def log_path(self, seed: int) -> str:
+        return os.path.join(self.dir, f"zygote-{seed}.log")
+
+    def log_tail(self, seed: int, n: int = 6000) -> str:
+        try:
+            with open(self.log_path(seed), "rb") as f:
+                f.seek(0, 2)
+                size = f.tell()
+                f.seek(max(0, size - n))
+                return f.read().decode("utf-8", "replace")
+        except OSError:
+            return ""
+
+    def alive(self, seed: int) -> bool:
+        if os.getpid() != self.owner:
+            return os.path.exists(self.dir)       # a forked worker cannot poll its parent's children
+        return self.procs[seed].poll() is None
+
+    def shutdown(self) -> None:
+        if os.getpid() != self.owner:
+            return
+        for p in self.procs.values():
+            try:
+                if p.poll() is None:
+                    p.kill()
+            except Exception:  # noqa: BLE001
+                pass
+        for p in self.procs.values():
+            try:
+                p.wait(timeout=10)
+            except Exception:  # noqa: BLE001
+                pass
+        shutil.rmtree(self.dir, ignore_errors=True)
+
+
+_ZYGOTES: Optional[Zygotes] = None
+
+
+def _shutdown_zygotes() -> None:
+    global _ZYGOTES
+    if _ZYGOTES is not None and _ZYGOTES.owner == os.getpid():
+        _ZYGOTES.shutdown()
+        _ZYGOTES = None
+
+
+def start_zygotes() -> None:
+    """Called by the check's setup() in the parent, before workers are forked (they inherit the socket
+    paths).  Returns at once; the zygotes import in the background and a node's first connect waits."""
+    global _ZYGOTES
+    if os.environ.get("VERIF_NODE_MODE") == "spawn":
+        return
+    if _ZYGOTES is not None and _ZYGOTES.owner == os.getpid():
+        return
+    _ZYGOTES = Zygotes()
+    atexit.register(_shutdown_zygotes)
+    try:
+        prev = signal.getsignal(signal.SIGTERM)
+
+        def _on_term(signum, frame, _prev=prev):
+            _shutdown_pool()
+            _shutdown_zygotes()
+            if callable(_prev):
+                _prev(signum, frame)
+            else:
+                os._exit(143)
+
+        signal.signal(signal.SIGTERM, _on_term)
+    except Exception:  # noqa: BLE001 - not the main thread
+        pass
+
+
+def zygote_mode() -> bool:
+    return _ZYGOTES is not None
+
+
+# -----------------------------------------------------------------------------------------------------
+# one node
+# -----------------------------------------------------------------------------------------------------
 class Node:
     """One interpreter process.  `call` is strictly request/response."""
 
-    _counter = 0
-
-    def __init__(self, hashseed: int):
+    def __init__(self, hashseed: int, socket_path: Optional[str] = None):
         self.hashseed = hashseed
-        Node._counter += 1
-        self.serial = Node._counter          # identity of the *process* inside this coordinator
+        self.socket_path = socket_path
         self.ready = False
         self.dead = False
-        self.calls = 0
+        self.runs_served = 0
         self.t_started = time.monotonic()
-        env = {k: v for k, v in os.environ.items() if not k.startswith("VERIF_DIGESTS")}
-        env["PYTHONHASHSEED"] = str(hashseed)
-        env["VERIF_REPO"] = repoenv.repo_root()
-        env.pop("PYTHONPATH", None)
-        self._stderr = tempfile.TemporaryFile(prefix="verif-node-", dir=os.environ.get("TMPDIR") or "/dev/shm")
-        self.proc = subprocess.Popen([PYTHON, "-X", "faulthandler", NODE_MAIN], stdin=subprocess.PIPE,
-                                     stdout=subprocess.PIPE, stderr=self._stderr, env=env, close_fds=True,
-                                     cwd=os.path.dirname(NODE_MAIN))
-        self._rfd = self.proc.stdout.fileno()
-        self._wfd = self.proc.stdin.fileno()
         self.hello = None
+        self.pid: Optional[int] = None
+        self.proc: Optional[subprocess.Popen] = None
+        self.sock: Optional[socket.socket] = None
+        self._stderr = None
+        if zygote_mode():
+            self._connect()
+        else:
+            self._stderr = tempfile.TemporaryFile(prefix="verif-node-", dir=os.environ.get("TMPDIR") or "/dev/shm")
+            self.proc = subprocess.Popen([PYTHON, "-X", "faulthandler", NODE_MAIN], stdin=subprocess.PIPE,
+                                         stdout=subprocess.PIPE, stderr=self._stderr, env=_node_env(hashseed),
+                                         close_fds=True, cwd=os.path.dirname(NODE_MAIN))
+            self._rfd = self.proc.stdout.fileno()
+            self._wfd = self.proc.stdin.fileno()
+
+    def _connect(self) -> None:
+        z = _ZYGOTES
+        path = self.socket_path or z.socket_path(self.hashseed)
+        deadline = max(z.t_started, self.t_started) + START_TIMEOUT
+        while True:
+            s = socket.socket(socket.AF_UNIX, socket.SOCK_STREAM)
+            try:
+                s.connect(path)
+                break
+            except (FileNotFoundError, ConnectionRefusedError):
+                s.close()
+                if not z.alive(self.hashseed) or time.monotonic() > deadline:
+                    raise HarnessError(f"zygote for PYTHONHASHSEED={self.hashseed} is not accepting connections\n"
+                                       f"--- zygote log (tail) ---\n{z.log_tail(self.hashseed)[-2500:]}") from None
+                time.sleep(0.05)
+        self.sock = s
+        self._rfd = self._wfd = s.fileno()
 
     # -- low level ----------------------------------------------------------------------------------
     def _stderr_tail(self, n: int = 6000) -> str:
+        if self._stderr is None:
+            return _ZYGOTES.log_tail(self.hashseed, n) if _ZYGOTES is not None else ""
         try:
             self._stderr.flush()
             size = os.fstat(self._stderr.fileno()).st_size
@@ -96,20 +229,24 @@ class Node:
 
     def _died(self, during: str) -> NodeDied:
         self.dead = True
-        try:
-            self.proc.wait(timeout=5)
-        except Exception:  # noqa: BLE001
-            pass
+        rc = None
+        if self.proc is not None:
+            try:
+                self.proc.wait(timeout=5)
+            except Exception:  # noqa: BLE001
+                pass
+            rc = self.proc.returncode
+        else:
+            time.sleep(0.2)   # let the dying process finish writing its traceback to the log
         tail = self._stderr_tail()
-        rc = self.proc.returncode
         sut = False
         if "Traceback (most recent call last)" in tail:
             root = repoenv.repo_root() + os.sep
             files = [ln.strip() for ln in tail.splitlines() if ln.strip().startswith('File "')]
             sut = bool(files) and files[-1].startswith(f'File "{root}')
         self.kill()
-        return NodeDied(f"node (PYTHONHASHSEED={self.hashseed}) died with return code {rc} during {during}\n"
-                        f"--- node stderr (tail) ---\n{tail[-2500:]}", stderr_tail=tail, sut_traceback=sut)
+        return NodeDied(f"node (PYTHONHASHSEED={self.hashseed}, pid {self.pid}) died (return code {rc}) during "
+                        f"{during}\n--- node stderr (tail) ---\n{tail[-2500:]}", stderr_tail=tail, sut_traceback=sut)
 
     def _read_exact(self, n: int, deadline: float, during: str) -> bytes:
         buf = bytearray()
@@ -123,7 +260,10 @@ class Node:
             r, _, _ = select.select([self._rfd], [], [], min(remaining, 5.0))
             if not r:
                 continue
-            chunk = os.read(self._rfd, min(1 << 20, n - len(buf)))
+            try:
+                chunk = os.read(self._rfd, min(1 << 20, n - len(buf)))
+            except ConnectionResetError:
+                chunk = b""
             if not chunk:
                 raise self._died(during)
             buf += chunk
@@ -142,30 +282,25 @@ class Node:
             while view:
                 k = os.write(self._wfd, view[:1 << 16])
                 view = view[k:]
-        except (BrokenPipeError, OSError):
+        except (BrokenPipeError, ConnectionResetError, OSError):
             raise self._died(during) from None
 
     # -- API -------------------------------------------------------------------------------------------
     def wait_ready(self) -> None:
         if self.ready:
             return
-        remaining = max(5.0, START_TIMEOUT - (time.monotonic() - self.t_started))
-        hello = self._recv_hello(remaining)
+        remaining = max(10.0, START_TIMEOUT - (time.monotonic() - self.t_started))
+        self._send({"op": "hello"}, "start-up")
+        hello = self._recv(remaining, "start-up (import of the five packages)")
         root = repoenv.repo_root()
-        if hello.get("root") != root or not str(hello.get("cirq_file", "")).startswith(root + os.sep) \
+        if hello.get("status") != "ok" or hello.get("root") != root \
+                or not str(hello.get("cirq_file", "")).startswith(root + os.sep) \
                 or str(hello.get("hashseed")) != str(self.hashseed):
             self.kill()
             raise HarnessError(f"node handshake mismatch: {hello!r} (wanted root={root} seed={self.hashseed})")
         self.hello = hello
+        self.pid = hello.get("pid")
         self.ready = True
-
-    def _recv_hello(self, timeout: float):
-        self._send({"op": "hello"}, "start-up")
-        resp = self._recv(timeout, "start-up (import of the five packages)")
-        if resp.get("status") != "ok":
-            self.kill()
-            raise HarnessError(f"node start-up failed: {resp!r}")
-        return resp
 
     def call(self, req: dict, timeout: Optional[float] = None) -> dict:
         """Returns the response dict with status 'ok' or 'sut'.  Anything else raises HarnessError."""
@@ -181,37 +316,59 @@ class Node:
             if not self.dead:
                 self.kill()
             raise
-        self.calls += 1
         st = resp.get("status")
         if st in ("ok", "sut"):
             return resp
         raise HarnessError(f"node reported a harness-side error during {during}:\n{resp.get('tb')}")
 
+    def is_alive(self) -> bool:
+        if self.dead:
+            return False
+        if self.proc is not None:
+            return self.proc.poll() is None
+        return True
+
     def kill(self) -> None:
         self.dead = True
-        try:
-            if self.proc.poll() is None:
-                self.proc.kill()
-        except Exception:  # noqa: BLE001
-            pass
-        for f in (self.proc.stdin, self.proc.stdout):
+        if self.proc is not None:
             try:
-                f.close()
+                if self.proc.poll() is None:
+                    self.proc.kill()
             except Exception:  # noqa: BLE001
                 pass
-        try:
-            self.proc.wait(timeout=10)
-        except Exception:  # noqa: BLE001
-            pass
-        try:
-            self._stderr.close()
-        except Exception:  # noqa: BLE001
-            pass
+            for f in (self.proc.stdin, self.proc.stdout):
+                try:
+                    f.close()
+                except Exception:  # noqa: BLE001
+                    pass
+            try:
+                self.proc.wait(timeout=10)
+            except Exception:  # noqa: BLE001
+                pass
+        else:
+            if self.pid:
+                try:
+                    os.kill(self.pid, signal.SIGKILL)     # reaped by the zygote (SIGCHLD ignored there)
+                except (ProcessLookupError, PermissionError):
+                    pass
+            if self.sock is not None:
+                try:
+                    self.sock.close()                     # a node that was never greeted exits on EOF
+                except Exception:  # noqa: BLE001
+                    pass
+                self.sock = None
+        if self._stderr is not None:
+            try:
+                self._stderr.close()
+            except Exception:  # noqa: BLE001
+                pass
+            self._stderr = None
 
 
+# -----------------------------------------------------------------------------------------------------
+# the nodes of this process
+# -----------------------------------------------------------------------------------------------------
 class Pool:
-    """Nodes of this process, indexed by hash seed."""
-
     def __init__(self):
         self.pid = os.getpid()
         self.idle: Dict[int, List[Node]] = {}
@@ -219,76 +376,74 @@ class Pool:
         self.started = 0
         self.killed = 0
         self.start_seconds = 0.0
-        self._lru: List[int] = []
+        default_reuse = "0" if zygote_mode() else "1000000"
+        self.reuse = int(os.environ.get("VERIF_NODE_REUSE", default_reuse))
+        self.sub: Dict[int, Node] = {}       # this process's own fork servers, one per hash seed
 
-    # -- bookkeeping ---------------------------------------------------------------------------------------
-    def _live(self) -> int:
-        return len(self.in_use) + sum(len(v) for v in self.idle.values())
+    def _sub_zygote_path(self, seed: int) -> str:
+        """Forks of one process are serial; fourteen workers each want a few per run.  So every process that
+        executes runs asks the per-seed zygote once for a fork that becomes *its* fork server."""
+        z = self.sub.get(seed)
+        if z is None or z.dead:
+            path = os.path.join(_ZYGOTES.dir, f"w{os.getpid()}-{seed}-{len(self.sub)}.sock")
+            z = Node(seed)
+            z.wait_ready()
+            resp = z.call({"op": "zygote", "path": path})
+            if resp.get("status") != "ok":
+                raise HarnessError(f"could not create a fork server: {resp!r}")
+            z.path = path
+            self.sub[seed] = z
+        return z.path
+
+    def _n_idle(self) -> int:
+        return sum(len(v) for v in self.idle.values())
 
     def _start(self, seed: int) -> Node:
         self.started += 1
+        if zygote_mode():
+            return Node(seed, self._sub_zygote_path(seed))
         return Node(seed)
 
     def prestart(self, seeds) -> None:
-        """Start nodes for these seeds without waiting for them (their import runs while we go on)."""
+        """spawn mode only: start cold interpreters without waiting for them."""
+        if zygote_mode():
+            return
         for s in seeds:
-            if self._live() >= MAX_LIVE:
+            if self._n_idle() + len(self.in_use) >= MAX_IDLE:
                 return
             if not self.idle.get(s) and not any(n.hashseed == s for n in self.in_use):
                 self.idle.setdefault(s, []).append(self._start(s))
 
-    def _trim(self, keep: int) -> None:
-        """Keep at most MAX_LIVE processes: drop idle nodes of the least recently used seeds."""
-        while self._live() > MAX_LIVE:
-            victim = None
-            for s in self._lru:
-                if s != keep and self.idle.get(s):
-                    victim = self.idle[s].pop()
-                    break
-            if victim is None:
-                for s, lst in self.idle.items():
-                    if s != keep and lst:
-                        victim = lst.pop()
-                        break
-            if victim is None:
-                return
-            victim.kill()
-            self.killed += 1
-
-    # -- API -------------------------------------------------------------------------------------------
     def acquire(self, seed: int) -> Node:
         if not self.started:
-            # first use in this process: the first three seeds are needed by nearly every run
             self.prestart([s for s in HASH_SEEDS[:3] if s != seed])
         node = None
         lst = self.idle.get(seed) or []
         while lst:
             cand = lst.pop()
-            if not cand.dead and cand.proc.poll() is None:
+            if cand.is_alive():
                 node = cand
                 break
             cand.kill()
         if node is None:
-            self._trim(keep=seed)
             node = self._start(seed)
-        if seed in self._lru:
-            self._lru.remove(seed)
-        self._lru.append(seed)
         self.in_use.append(node)
         t0 = time.monotonic()
-        was_ready = node.ready
         node.wait_ready()
-        if not was_ready:
-            self.start_seconds += time.monotonic() - t0
-        resp = node.call({"op": "reset"})
-        if resp.get("status") != "ok":
-            raise HarnessError(f"reset failed: {resp!r}")
+        self.start_seconds += time.monotonic() - t0
+        if node.runs_served:
+            resp = node.call({"op": "reset"})
+            if resp.get("status") != "ok":
+                raise HarnessError(f"reset failed: {resp!r}")
         return node
 
     def release(self, node: Node) -> None:
         if node in self.in_use:
             self.in_use.remove(node)
-        if node.dead or node.proc.poll() is not None:
+        node.runs_served += 1
+        if not node.is_alive() or node.runs_served > self.reuse or self._n_idle() >= MAX_IDLE:
+            if not node.dead:
+                self.killed += 1
             node.kill()
             return
         self.idle.setdefault(node.hashseed, []).append(node)
@@ -301,7 +456,6 @@ class Pool:
         node.kill()
         self.killed += 1
         fresh = self.acquire(new_seed)
-        # replacement for later runs, started in the background
         self.prestart([old_seed])
         return fresh
 
@@ -315,6 +469,9 @@ class Pool:
             for n in lst:
                 n.kill()
         self.idle.clear()
+        for z in self.sub.values():
+            z.kill()
+        self.sub.clear()
 
 
 _POOL: Optional[Pool] = None
@@ -339,20 +496,5 @@ def pool() -> Pool:
             from multiprocessing import util as _mpu
             _mpu.Finalize(None, _shutdown_pool, exitpriority=100)
         except Exception:  # noqa: BLE001
-            pass
-        # a worker that is terminated by the parent still takes its nodes with it (nodes also set
-        # PR_SET_PDEATHSIG and exit on EOF of their stdin)
-        try:
-            prev = signal.getsignal(signal.SIGTERM)
-
-            def _on_term(signum, frame, _prev=prev):
-                _shutdown_pool()
-                if callable(_prev):
-                    _prev(signum, frame)
-                else:
-                    os._exit(143)
-
-            signal.signal(signal.SIGTERM, _on_term)
-        except Exception:  # noqa: BLE001 - not the main thread
             pass
     return _POOL
